@@ -941,7 +941,11 @@ def render(sv):
         return "«%s»" % sv[1]
     if t == "list":
         return "[%s]" % render(sv[1])
-    return "⟪%s⟫" % (sv[1] if len(sv) > 1 else t)
+    if t == "rep_tail":
+        return "⟨%r %s⟩*" % (sv[2], render(sv[1]))
+    if t in ("opt",) and len(sv) > 1 and isinstance(sv[1], tuple):
+        return "Some(%s)" % render(sv[1])
+    return "⟪%s⟫" % (str(sv[1]) if len(sv) > 1 else t,)
 
 
 def leaves(sv):
